@@ -202,12 +202,41 @@ func runC07(c *Ctx, r *Report) {
 					}
 				}
 			}
+			// numeric conversions that merge values: integer → float, integer → narrower integer, integer → string (rune)
+			if fb, ok := from.(*types.Basic); ok && fb.Info()&types.IsInteger != 0 {
+				if tb2, ok := to.(*types.Basic); ok {
+					switch {
+					case tb2.Info()&types.IsFloat != 0:
+						convs = append(convs, conv{y, "integer→" + tb2.Name() + " conversion (neighbouring integers beyond 2^53 round to one value)", false})
+					case tb2.Info()&types.IsString != 0:
+						convs = append(convs, conv{y, "integer→string (rune) conversion (every invalid code point becomes U+FFFD)", false})
+					case tb2.Info()&types.IsInteger != 0 && types.SizesFor("gc", "amd64").Sizeof(tb2) < types.SizesFor("gc", "amd64").Sizeof(fb):
+						convs = append(convs, conv{y, "narrowing " + fb.Name() + "→" + tb2.Name() + " conversion (high bits dropped)", false})
+					}
+				}
+			}
+		case *ssa.BinOp:
+			// arithmetic that merges values of a signed integer field
+			if b, ok := y.Type().Underlying().(*types.Basic); ok && b.Info()&types.IsInteger != 0 {
+				switch y.Op {
+				case token.REM, token.QUO, token.AND, token.OR, token.SHR, token.SHL, token.AND_NOT, token.MUL:
+					convs = append(convs, conv{y, "arithmetic " + y.Op.String() + " on a signed value (different inputs give one result)", false})
+				}
+			}
 		case *ssa.Call:
 			if cal := y.Call.StaticCallee(); cal != nil {
 				full := cal.String()
 				switch {
-				case strings.HasSuffix(full, "hex.EncodeToString"), strings.Contains(full, "base64.Encoding).EncodeToString"), strings.Contains(full, "multibase"):
+				case strings.HasSuffix(full, "hex.EncodeToString"), strings.Contains(full, "base64.Encoding).EncodeToString"), strings.Contains(full, "multibase"),
+					strings.HasPrefix(full, "strconv.Itoa"), strings.HasPrefix(full, "strconv.FormatInt"), strings.HasPrefix(full, "strconv.FormatUint"):
 					convs = append(convs, conv{y, "injective encoder " + cal.Name(), true})
+				case cal == marshalCall.Call.StaticCallee():
+				default:
+					// a library function applied to a signed value and feeding the signed bytes, outside the table of
+					// injective encoders: the rule cannot see that it keeps different inputs apart
+					if pkg := calleePkg(cal); pkg != nil && !p.firstParty(pkg) && len(y.Call.Args) > 0 && cal.Signature.Results().Len() > 0 {
+						convs = append(convs, conv{y, "call of " + full + " on the signing path, not in the table of injective encoders", false})
+					}
 				}
 			}
 		}
